@@ -301,12 +301,16 @@ pub fn check_history(ops: &[VecOp], cfg: &Cfg, poison: u64, stats: &mut Stats) -
 }
 
 pub fn check_recipe(r: &Recipe, stats: &mut Stats) -> Result<(), Failure> {
+    check_recipe_cfgs(r, &[0, 2, 5, 6], stats)
+}
+
+pub fn check_recipe_cfgs(r: &Recipe, cfgs: &[usize], stats: &mut Stats) -> Result<(), Failure> {
     let ops = history(r);
     let poison = gen::mix(r.b ^ 0x5eed) | 0x0101_0101_0101_0101;
     let mut flags = (false, false, false, false);
-    for idx in [0usize, 2, 5, 6] {
+    for (n, &idx) in cfgs.iter().enumerate() {
         let f = check_history(&ops, &CFGS[idx], poison, stats)?;
-        if idx == 0 {
+        if n == 0 {
             flags = f;
         }
     }
